@@ -936,21 +936,28 @@ where
 
     /// Insert and get node ID
     pub fn insert_and_get_node_id(&mut self, key: &[u8]) -> Result<StateId> {
+        // Re-inserting a member must not change len(): count new keys only (as Trie::insert does)
+        let is_new = !<Self as Trie>::contains(self, key);
         match &mut self.storage {
             TrieStorage::Patricia { nodes, edge_data, compressed_paths } => {
                 let node_id = Self::insert_patricia_actual(nodes, edge_data, compressed_paths, key)?;
-                self.stats.num_keys += 1;
+                if is_new {
+                    self.stats.num_keys += 1;
+                }
                 Ok(node_id)
             }
             TrieStorage::Louds { louds, is_link, next_link, label_data, core_data, next_trie } => {
                 // Delegate to the LOUDS-specific insert implementation
                 let node_id = Self::insert_louds(louds, is_link, next_link, label_data, core_data, next_trie, key)?;
-                self.stats.num_keys += 1;
+                if is_new {
+                    self.stats.num_keys += 1;
+                }
                 Ok(node_id)
             }
             _ => {
-                // For other storage types, return 0 for now
-                self.stats.num_keys += 1;
+                // The remaining storages have no node ids: insert through the regular path
+                // (which maintains num_keys itself) and report state 0
+                <Self as Trie>::insert(self, key)?;
                 Ok(0)
             }
         }
